@@ -82,7 +82,7 @@ Proof. unfold usable. rewrite !andb_true_iff. intros [[H _] _]. apply valid_lt, 
 Ltac use_obj_at x o nv s Hv :=
     let H := fresh "HW" in let T := fresh "T" in
     pose proof (CW_set_obj x o nv s Hv) as H; set (T := CW x (set_obj o nv s)) in *; clearbody T;
-    unfold oslots in H; cbn [upd_obj sent with_cpc osendb orecvb opinned opend] in H; rewrite ?cnt_app, ?pslots_app in H; rewrite ?cnt_app in H.
+    unfold oslots in H; cbn [upd_obj sent with_cpc with_flags osendb orecvb opinned opend] in H; rewrite ?cnt_app, ?pslots_app in H; rewrite ?cnt_app in H.
 Ltac use_obj Hv :=
   match goal with
   | |- context [CW ?x (set_obj ?o ?nv ?s)] => use_obj_at x o nv s Hv
@@ -345,7 +345,7 @@ Qed.
 Lemma CJ_sock_data e sid b s : CJ s -> CJ (sock_data e sid b s).
 Proof.
   intro J. unfold sock_data. destruct (tbl s (key e sid)) as [o|].
-  - apply CJ_set_obj; [exact J |]. eapply oj_same; [.. | apply J]; cbn [upd_obj ocpc oclosed opend orecvb opinned osendb]; try reflexivity.
+  - apply CJ_set_obj; [exact J |]. eapply oj_same; [.. | apply J]; cbn [with_flags upd_obj ocpc oclosed opend orecvb opinned osendb]; try reflexivity.
     rewrite pslots_app. cbn. rewrite app_nil_r. reflexivity.
   - destruct e; [apply CJ_new_obj; [exact J | reflexivity] | exact J].
 Qed.
@@ -393,7 +393,7 @@ Proof.
     set (v := objs s o). destruct (Hj o) as (A & B & C & D). fold v in A, B, C, D.
     split; [exact Fx | split; [exact Lk |]]. intro j. cbn [set_loop set_obj objs loop_c loop_s].
     destruct (Nat.eq_dec j o) as [->|N].
-    + rewrite updn_eq. unfold oj. cbn [upd_obj ocpc oclosed opend orecvb opinned osendb]. refine (conj A (conj _ (conj C D))).
+    + rewrite updn_eq. unfold oj. cbn [with_flags upd_obj ocpc oclosed opend orecvb opinned osendb]. refine (conj A (conj _ (conj C D))).
       intros _. destruct e; [right; right | right; left]; reflexivity.
     + rewrite updn_neq by exact N. destruct (Hj j) as (A' & B' & C' & D'). unfold oj. refine (conj A' (conj _ (conj C' D'))).
       intro Q. specialize (B' Q). unfold loop_of in L. destruct e; destruct B' as [B'|[B'|B']]; auto; rewrite L in B'; discriminate.
@@ -403,7 +403,7 @@ Proof.
     destruct (oclosed v) eqn:Cl; inversion E; subst; clear E.
     + rewrite Fx. eapply CJ_set_loop_idle with (o := o).
       * destruct e; exact L.
-      * cjf. apply CJ_set_obj; [exact J |]. unfold oj. cbn [upd_obj ocpc oclosed opend orecvb opinned osendb].
+      * cjf. apply CJ_set_obj; [exact J |]. unfold oj. cbn [with_flags upd_obj ocpc oclosed opend orecvb opinned osendb].
         exact (conj A (conj (fun _ => or_introl eq_refl) (conj (fun _ => conj eq_refl eq_refl) D))).
       * intros _. cbn [cadd_free set_obj objs]. rewrite updn_eq. reflexivity.
     + apply (CJ_set_loop_idle e o s L J). intro Q. assert (false = true) by (apply A; fold v in Q; lia). discriminate.
@@ -426,17 +426,17 @@ Proof.
     destruct (Hj o) as (A & B & C & D). fold v in A, B, C, D.
     destruct (ocpc v) as [|[|[|[|[|[|m]]]]]] eqn:Pc; try discriminate.
     + destruct (oclosed v); [discriminate |]. inversion E; subst. apply CJ_set_obj; [exact J |].
-      unfold upd_obj. oj4; cbn [ocpc oclosed] in *; try (exfalso; lia); reflexivity.
+      unfold with_flags, upd_obj. oj4; cbn [ocpc oclosed] in *; try (exfalso; lia); reflexivity.
     + inversion E; subst. eapply CJ_frame; [reflexivity .. |]. apply CJ_set_obj; [exact J |].
-      unfold with_cpc, upd_obj. oj4; cbn [ocpc oclosed] in *; try (exfalso; lia). apply A. lia.
+      unfold with_cpc, with_flags, upd_obj. oj4; cbn [ocpc oclosed] in *; try (exfalso; lia). apply A. lia.
     + inversion E; subst. cjf. apply CJ_set_obj; [exact J |].
-      unfold upd_obj. oj4; cbn [ocpc oclosed opend] in *; try (exfalso; lia); [apply A; lia | left; reflexivity].
+      unfold with_flags, upd_obj. oj4; cbn [ocpc oclosed opend] in *; try (exfalso; lia); [apply A; lia | left; reflexivity].
     + inversion E; subst. rewrite Fx. cjf. apply CJ_set_obj; [exact J |].
-      unfold upd_obj. oj4; cbn [ocpc oclosed opend orecvb opinned] in *; try (exfalso; lia); [apply A; lia | apply B; lia | split; reflexivity].
+      unfold with_flags, upd_obj. oj4; cbn [ocpc oclosed opend orecvb opinned] in *; try (exfalso; lia); [apply A; lia | apply B; lia | split; reflexivity].
     + inversion E; subst. cjf. apply CJ_set_obj; [exact J |].
-      unfold upd_obj. oj4; cbn [ocpc oclosed opend orecvb opinned osendb] in *; try (exfalso; lia); [apply A; lia | apply B; lia | apply C; lia | reflexivity].
+      unfold with_flags, upd_obj. oj4; cbn [ocpc oclosed opend orecvb opinned osendb] in *; try (exfalso; lia); [apply A; lia | apply B; lia | apply C; lia | reflexivity].
     + assert (J1 : CJ (set_obj o (with_cpc v 6) s)).
-      { apply CJ_set_obj; [exact J |]. unfold with_cpc, upd_obj. oj4; cbn [ocpc oclosed opend orecvb opinned osendb] in *;
+      { apply CJ_set_obj; [exact J |]. unfold with_cpc, with_flags, upd_obj. oj4; cbn [ocpc oclosed opend orecvb opinned osendb] in *;
           [apply A; lia | apply B; lia | apply C; lia | apply D; lia]. }
       destruct (onotify v); cbn [negb] in E; [| inversion E; subst; exact J1].
       destruct (oinfb v || _); inversion E; subst; [cjf; exact J1 | cjf; exact J1].
